@@ -31,7 +31,7 @@ func init() {
 
 func TestC05_AfterComponent(t *testing.T) {
 	c := harness.New(t, "C05", "after-component",
-		"pages of a template directory in which a component use without slots - @component(\"c\"), @component(\"c\", {}), @component(\"c\", {a: 1}) - (and, where the component file has a placeholder, a use that passes a slot body) is followed by every text run of <= 2 pieces from {space, LF, TAB, CRLF, NBSP, U+3000, U+2003, U+0085, FF, VT, a letter} and then by each of {a {{ }} block, an @if block, a comment, another use, plain text, the end of the file}; the component file has a placeholder or none; the same runs between the ')' of a use and its first @slot (blanks, tabs and line ends belong to the use, anything else is text and stays). Exhaustive. Expected: text before + the component's rendering + the run byte for byte + the rendering of what follows. Non-trivial: a run of white space only. Distinct by construction.")
+		"pages of a template directory in which a component use without slots - @component(\"c\"), @component(\"c\", {}), @component(\"c\", {a: 1}) - (and, where the component file has a placeholder, a use that passes a slot body) is followed by every text run of <= 2 pieces from {space, LF, TAB, CRLF, NBSP, U+3000, U+2003, U+0085, FF, VT, a letter} and then by each of {a {{ }} block, an @if block, a comment, another use, plain text, the end of the file}; the component file has a placeholder or none; the same runs between the ')' of a use and its first @slot (blanks, tabs and line ends belong to the use, anything else is text and stays); pages with three uses of one component, with and without slot bodies, in every order. Exhaustive. Expected: text before + the component's rendering + the run byte for byte + the rendering of what follows. Non-trivial: a run of white space only. Distinct by construction.")
 	defer c.Finish()
 	pieces := []string{"", " ", "\n", "\t", "\r\n", " ", "　", " ", "\u0085", "\f", "\v", "x"}
 	followers := []struct{ src, out string }{{"{{ 1 + 1 }}", "2"}, {"@if(true)y@end", "y"}, {"{{-- note --}}", ""}, {"@component(\"c\")", "<c>"}, {"tail", "tail"}, {"", ""}}
@@ -97,7 +97,31 @@ func TestC05_AfterComponent(t *testing.T) {
 			}
 		}
 	}
-	c.ExhaustivePart("2 component files x 133 runs x 6 followers x 4 spellings of the use (rotating); 133 runs before the first slot")
+	// several uses of one component on a page, with and without slot bodies, in every order: the text of a slot body
+	// appears where it is written, once
+	forms := []struct{ src, out string }{{"@component(\"c\");", "<c>;"}, {"@component(\"c\")@slot[s1 }} é]@end@end", "<c>[s1 }} é]"}, {"@component(\"c\", {a: 1})\n@slot[s2]@end\n@end", "<c>[s2]"}, {"@component(\"c\", {});", "<c>;"}}
+	for i := range forms {
+		for j := range forms {
+			for k := range forms {
+				idx++
+				if !harness.Mine(idx) {
+					continue
+				}
+				use := []int{i, j, k}
+				src, out := "A", "A"
+				for n, u := range use {
+					src += forms[u].src + fmt.Sprintf("-%d-", n)
+					out += forms[u].out + fmt.Sprintf("-%d-", n)
+				}
+				cs := treeCase{Files: map[string]string{"c": "<c>@slot", "page": src}, Dir: "t", Ext: ".tw", Page: "page", Want: want{St: "ok", Kind: "text", S: out}, Note: "three uses of one component"}
+				c.CaseEnum(true, "several-uses")
+				if r, fl := runTreeCase(c, cs); fl != "" {
+					c.Fail(t, kindOf(fl), cs, cs.Want, r, fl)
+				}
+			}
+		}
+	}
+	c.ExhaustivePart("2 component files x 133 runs x 6 followers x 4 spellings of the use (rotating); 133 runs before the first slot; 64 pages with three uses")
 }
 
 // TestC05_ResponseBody: the same bytes reach an http.ResponseWriter.
